@@ -327,9 +327,12 @@ def gen_scenario(rng, want=None, forbid=()):
     feature names never used."""
     want = dict(want or {})
     sc = Scenario()
+    sevenbit = bool(want.pop('sevenbit', False))
     feats = {f for f in ALL_FEATS if rng.random() < 0.5}
     feats |= set(want.pop('feats', ()))
     feats -= set(forbid)
+    if sevenbit:
+        feats -= {'neg', 'wide', 'sdot', 'high', 'catchall'}
     # alphabet
     pool = list(b'abcdefxyz01 ')
     alpha = rng.sample(pool, rng.randint(2, 5))
@@ -404,8 +407,10 @@ def gen_scenario(rng, want=None, forbid=()):
         def walk(n):
             if n[0] == 'cls':
                 s = n[1]
-                if s == rx.ALL - {NL} and rng.random() < 0.7:
+                if s == rx.ALL - {NL} and (sevenbit or rng.random() < 0.7):
                     r.styles[id(n)] = 3
+                elif sevenbit:
+                    r.styles[id(n)] = rng.choice([0, 2])
                 elif s == rx.ALL and rng.random() < 0.7:
                     r.styles[id(n)] = 4
                 else:
@@ -444,3 +449,22 @@ def gen_scenario(rng, want=None, forbid=()):
     if sc.fulltbl() and sc.interactive in ('interactive', 'always-interactive'):
         sc.interactive = rng.choice([None, 'batch', 'never-interactive'])
     return sc
+
+
+def relabel_scenario(sc, perm):
+    """the twin scenario pi(S): every literal and class mapped through the byte
+    permutation `perm` (a dict; bytes not mentioned are fixed)"""
+    import copy
+    t = copy.copy(sc)
+    t._matchers = {}
+    t.rules = []
+    for r in sc.rules:
+        q = copy.copy(r)
+        q.styles = {}
+        if r.pat is not None:
+            q.pat = rx.relabel(r.pat, perm)
+        if r.trail is not None:
+            q.trail = rx.relabel(r.trail, perm)
+        t.rules.append(q)
+    t.alphabet = [perm.get(b, b) for b in sc.alphabet]
+    return t
